@@ -266,7 +266,13 @@ func (a *recApp) CheckTx(req abci.RequestCheckTx) abci.ResponseCheckTx {
 	if a.onCheckTx != nil {
 		a.onCheckTx(req.Tx)
 	}
-	return abci.ResponseCheckTx{Code: 0, GasWanted: 1}
+	code := uint32(0)
+	if s := string(req.Tx); len(s) > 1 && s[0] == 'c' {
+		if n, err := strconv.Atoi(s[1:]); err == nil && n%10 == 9 {
+			code = 1 // rejected: the pool does not grow
+		}
+	}
+	return abci.ResponseCheckTx{Code: code, GasWanted: 1}
 }
 
 func (a *recApp) snapshot() (int64, []byte, []string) {
